@@ -116,8 +116,9 @@ def rad50(state, string: str) -> bytes:
             string = get_as_str(state, "'.rad50' operand", state["insn"], chunk)
             for char in string:
                 try:
-                    if len(char.upper()) != 1:
-                        # E.g. a ligature whose uppercase form is a substring of the table
+                    if not char.isascii():
+                        # The alphabet is ASCII; str.upper() maps some other characters into it
+                        # (U+017F to 'S', U+0131 to 'I', ligatures to 'ST'), which '^R' refuses too
                         raise ValueError(char)
                     val = radix50.TABLE.index(char.upper())
                 except ValueError:
